@@ -93,10 +93,10 @@ type recorder struct {
 	sets [][2]interface{}
 }
 
-func (r *recorder) SetValue(k, v interface{})     { r.sets = append(r.sets, [2]interface{}{k, v}) }
+func (r *recorder) SetValue(k, v interface{})       { r.sets = append(r.sets, [2]interface{}{k, v}) }
 func (r *recorder) Value(k interface{}) interface{} { return nil }
-func (r *recorder) Keys() []interface{}           { return nil }
-func (r *recorder) LockData() app.DataScopeLocker { return nil }
+func (r *recorder) Keys() []interface{}             { return nil }
+func (r *recorder) LockData() app.DataScopeLocker   { return nil }
 
 var c17Alphabet = []byte{' ', '\t', '\n', '"', '\\', '=', '<', 'a', 0xC3}
 
